@@ -86,3 +86,67 @@ def run_wide(chk, n_total, boundary_bias=0.35):
                                 'max_width': 64, 'corrupted_record_rejected': corrupted_idx is not None and corrupted_idx not in acc}
     ex = recs[len(recs) // 2]
     chk.sample({'instance': 'wide fields (bit strings)', 'fields(value,width,aligned,endian)': ex['src'], 'implementation_accepts': ex['ok'], 'bytes': ex['bytes']})
+
+
+def _corpus_pack(args):
+    cfg, src, inc = args
+    import shutil
+    from harness import traces
+    runner.import_repo()
+    from bespokeasm.assembler.engine import Assembler
+    d = tempfile.mkdtemp(prefix='vpk_', dir=runner.SCRATCH_ROOT)
+    try:
+        out = os.path.join(d, 'o.bin')
+        status, msg, ev, img = traces.record(lambda: Assembler(src, cfg, True, out, 0, None, 0, False, 'listing', 'stdout', 0, [inc], []).assemble_bytecode(), out)
+        recs = {}
+        for e in ev:
+            if e['ev'] == 'pack':
+                key = json.dumps([e['parts'], e['bytes']])
+                recs[key] = e
+        return status, list(recs.values())
+    finally:
+        shutil.rmtree(d, ignore_errors=True)
+
+
+def run_corpus_pack(chk):
+    """Every instruction of every repository program (real ISAs, all operand types): the parts the implementation packed and the
+    bytes it produced are validated by Trace_Pack.tla (bytes = flat layout of the parts; reserved size = emitted size)."""
+    from harness import corpus
+    progs = corpus.corpus_programs()
+    if chk.tier == 'quick':
+        progs = [p for p in progs if os.path.getsize(p[1]) < 40000]
+    outs = runner.pmap(_corpus_pack, progs)
+    slim, srcs = [], []
+    seen = set()
+    for (cfg, src, inc), (status, recs) in zip(progs, outs):
+        for e in recs:
+            key = json.dumps([e['parts'], e['bytes']])
+            if key in seen:
+                continue
+            seen.add(key)
+            if any(not isinstance(p[0], int) for p in e['parts']):
+                continue
+            slim.append({'fields': [{'w': p[1], 'al': bool(p[2]), 'en': p[3], 'neg': p[0] < 0, 'mag': bits(abs(p[0]))} for p in e['parts']],
+                         'bytes': e['bytes'], 'ok': True})
+            srcs.append((os.path.relpath(src, corpus.REPO), e))
+    if not slim:
+        chk.machinery('no pack events recorded from the corpus')
+        return
+    fd, path = tempfile.mkstemp(prefix='vpkt_', suffix='.json', dir=runner.SCRATCH_ROOT)
+    with os.fdopen(fd, 'w') as f:
+        json.dump(slim, f)
+    try:
+        res = tlc.run_tlc('Trace_Pack', 'SPECIFICATION Spec\nINVARIANT Accepted\n', workers=16, env={'TRACE_FILE': path}, timeout=3000)
+    finally:
+        os.unlink(path)
+    chk.add_tlc(res)
+    acc = {a['t'] for a in res.tags.get('ACC', [])}
+    for i, (src, e) in enumerate(srcs, start=1):
+        chk.traces += 1
+        if i not in acc:
+            chk.violation(f'{src}: instruction at address {e["address"]} packs parts (value, size, aligned, endian) {e["parts"]} into {bytes(e["bytes"]).hex()}, '
+                          f'not their flat layout', {'path': src}, 'Trace_Pack.RecOk', e['bytes'], {'kind': 'corpus-pack'})
+        elif e['reserved'] != len(e['bytes']):
+            chk.violation(f'{src}: instruction at address {e["address"]} reserved {e["reserved"]} bytes but packs {len(e["bytes"])}', {'path': src},
+                          e['reserved'], len(e['bytes']), {'kind': 'corpus-pack-size'})
+    chk.notes['corpus_pack_events'] = {'programs': len(progs), 'distinct_instruction_encodings': len(slim)}
